@@ -13,7 +13,8 @@ assert str(REPO) != "/repo" and REPO.exists()
 
 M12 = [
     ("M1-registered-under-another-tag", "mutation", [("src/odfdo/bookmark.py", "register_element_class(Bookmark)\n",
-        "register_element_class_list(Bookmark, (\"text:bookmark\", \"text:bookmark-start\"))\n")]),
+        "register_element_class_list(Bookmark, (\"text:bookmark\", \"text:bookmark-start\"))\n"),
+        ("src/odfdo/bookmark.py", "from .element import Element, PropDef, register_element_class\n", "from .element import Element, PropDef, register_element_class, register_element_class_list\n")]),
     ("M2-propdef-wrong-attribute", "mutation", [("src/odfdo/section.py", 'PropDef("name", "text:name")', 'PropDef("name", "text:display-name")')]),
     ("M3-ctor-ignores-argument", "mutation", [("src/odfdo/section.py", "            if name:\n                self.name = name\n", "")]),
     ("M4-ctor-ignores-falsy-value", "mutation", [("src/odfdo/header.py", "            if start_value is not None:\n", "            if start_value:\n")]),
